@@ -11778,7 +11778,9 @@ Tree_init(Tree *self, PyObject *args, PyObject *kwds)
             PyErr_SetString(PyExc_TypeError, "sample must be a number");
             goto out;
         }
-        tracked_samples[j] = (tsk_id_t) PyLong_AsLong(item);
+        if (!tsk_id_converter(item, &tracked_samples[j])) {
+            goto out;
+        }
         if (tracked_samples[j] < 0 || tracked_samples[j] >= (tsk_id_t) num_nodes) {
             PyErr_SetString(PyExc_ValueError, "samples must be valid nodes");
             goto out;
